@@ -1,5 +1,6 @@
 import Gonuts.Lemmas.SpendExamples
 import Gonuts.Lemmas.Nut10Parse
+import Gonuts.Lemmas.Nut10RoundTrip
 /-!
   C12 — P2PK locks (NUT-11).  Model: `Model.Spend` (the repaired code: F6 "always remove the matched key",
   F7 "ProofsSigAll skips non-NUT-10 secrets"); specification: `Spec.Spendable` (declarative, from NUT-11).
@@ -276,5 +277,23 @@ example : Model.Nut10Parse.lockKind "[\"p2pk\",{}]" = .anyone ∧ Model.Nut10Par
     Model.Nut10Parse.lockKind "[\"P2PK\"]" = .anyone ∧ Model.Nut10Parse.lockKind "{\"0\":\"P2PK\",\"1\":{}}" = .anyone ∧
     Model.Nut10Parse.lockKind "[\"P2PK\",{\"data\":1}]" = .anyone ∧ Model.Nut10Parse.lockKind "[\"P2PK\",{}] x" = .anyone ∧
     Model.Nut10Parse.lockKind "[\"P2PK\",{}]" = .p2pk := by decide
+
+/-- what the library's `SerializeSecret` writes (the secret of every locked output an honest wallet builds) is read back
+    by `DeserializeSecret` as the same kind, nonce, data and tags — for EVERY string content (quotes, backslashes, control
+    characters, `<>&`, U+2028/9, any other character) and every tag list incl. nil slices; so a P2PK secret written by
+    the library is always recognised as a P2PK lock with exactly the conditions that were written
+    (`Lemmas/Nut10RoundTrip.lean`: lexer over the printed characters, unquoting over the escapes, stack parser over the
+    printed tokens, decoder over the tree — each by induction). -/
+theorem serialized_secret_read_back (k : Kind) (nonce data : String) (tags : Option (List (Option (List String)))) :
+    Model.Nut10Parse.parseSecret (Model.Nut10Parse.serializeSecret k nonce data tags)
+      = some ⟨k, nonce, data, Model.Nut10Parse.tagsOf tags⟩ :=
+  Model.Nut10Parse.parse_serialize k nonce data tags
+
+theorem serialized_p2pk_recognised (nonce data : String) (tags : Option (List (Option (List String)))) :
+    Model.Nut10Parse.lockKind (Model.Nut10Parse.serializeSecret .p2pk nonce data tags) = .p2pk := by
+  unfold Model.Nut10Parse.lockKind; rw [serialized_secret_read_back]
+
+example : Model.Nut10Parse.serializeSecret .p2pk "n\"<\n" "d" (some [some ["sigflag", "SIG_ALL"], none])
+    = "[\"P2PK\", {\"nonce\":\"n\\\"\\u003c\\n\",\"data\":\"d\",\"tags\":[[\"sigflag\",\"SIG_ALL\"],null]}]" := by decide
 
 end Gonuts.Props.C12
